@@ -64,4 +64,36 @@ CHECKS["C15"] = {
     "note": "Upper plumbing (cv/mu/note/counter/wait_n loops) decided by the real-library grid, not a theorem (coverage.partial).",
     "technique": "Coq proof over semaphore model + lock-step tie + real-library boundary grid in child processes",
 }
+CHECKS["C03"] = {
+    "text": "Theorems (Coq): (1) over MuModel instrumented with the operational release/acquire view semantics driven ONLY by the memory "
+            "order each site requests in the source (Gen/Sites.v): whatever a releaser had in its view is in the view of every later "
+            "acquirer, any threads/programs/schedules (C03_mutex_handoff); (2) every acquiring site is acquire, every releasing site release, "
+            "no plain store to the mutex word; publication sites of once/note/counter/waiting are release, observers acquire; (3) the whole "
+            "atomic-site inventory (kind, order, target of all ~160 sites) regenerated from /repo equals the pinned one.  A vector-clock "
+            "detector with the same rules runs over all scenario families, fed by the orders the executed macros really pass.",
+    "design_ref": "DESIGN.md section 4, C03",
+    "note": "Execution-level theorem only for the condition-free mutex; other hand-offs: pinned orders + detector (coverage.partial). "
+            "SC interleaving of the atomics themselves.",
+    "technique": "Coq proof over view-instrumented model + pinned site inventory (reflexivity) + vector-clock race detection",
+}
+CHECKS["C07"] = {
+    "text": "Machine-checked invariants (Coq) over OnceModel (one step per atomic site of once.c on the once word; values/guards regenerated "
+            "from the source), for ANY number of callers, objects, variants and schedules: the function starts at most once, no call returns "
+            "before it completed, exactly once if anybody returned, the word is 0/1(with a unique winner)/2, a call on a done once returns at "
+            "its first step without any lock, and no reachable world is stuck.  Lock-step replay of the once-word sites against the real "
+            "once.c and run-count/completion oracles over thousands of schedules on every run.",
+    "design_ref": "DESIGN.md section 4, C07",
+    "note": "once_mu/once_cv abstract in the model (losers may re-read at any time, justified by their <= 50 ms timed waits); replay samples.",
+    "technique": "Coq inductive invariant over source-regenerated transition system + lock-step trace inclusion",
+}
+CHECKS["C19"] = {
+    "text": "Theorems (Coq, by evaluation of regenerated terms): every call, pointer store and atomic site that follows the allocation in "
+            "nsync_note_new / nsync_counter_new is dominated by a test that is false for a NULL pointer, so a failed allocation makes the "
+            "constructor return NULL having touched nothing (C19_*_does_nothing_on_null), and the guards are not vacuous.  Scenario with a "
+            "fail-the-allocation switch compares existing objects byte-for-byte and re-uses them afterwards.",
+    "design_ref": "DESIGN.md section 4, C19",
+    "note": "The dominance facts come from the translator's AST walk (trusted); unchecked allocations elsewhere (nsync_waiter_new_, wait_n) are "
+            "outside the property.",
+    "technique": "Coq evaluation of source-regenerated dominance conditions + fault-injection scenario",
+}
 NOT_APPLICABLE = {}
